@@ -8,6 +8,7 @@ import (
 	"net"
 	"sort"
 	"strconv"
+	"strings"
 	"sync"
 	"time"
 
@@ -144,7 +145,25 @@ func (g *gen) e2eResponse() *base.Response {
 
 // e2eRun pushes n requests through one tunnel connection and checks both directions.
 func (g *gen) e2eRun(name, kind string, addr string, h *e2eHandler, n int) {
+	// The server answers the tunnel's GET before it registers the read channel
+	// (server_conn_reader.go handleTunneling → Server.handleHTTPChannel), so a POST that is
+	// processed first is refused with "did not found a corresponding HTTP GET request".  This
+	// is a race of the tunnel establishment, before any RTSP byte flows; it shows up under heavy
+	// machine load.  It is outside C04 (framing); such runs are counted and repeated.
+	for try := 0; try < 4; try++ {
+		if !g.e2eRunOnce(name, kind, addr, h, n, try == 3) {
+			return
+		}
+		g.c.Dist("e2e-" + kind + "-setup-race-retry")
+	}
+}
+
+// e2eRunOnce returns true when the tunnel could not be established (see e2eRun).
+func (g *gen) e2eRunOnce(name, kind string, addr string, h *e2eHandler, n int, last bool) bool {
 	c := g.c
+	h.mu.Lock()
+	nCloseErrs := len(h.closeErrs)
+	h.mu.Unlock()
 	ctx, cancel := context.WithTimeout(context.Background(), 20*time.Second)
 	defer cancel()
 	var nc net.Conn
@@ -158,7 +177,7 @@ func (g *gen) e2eRun(name, kind string, addr string, h *e2eHandler, n int) {
 	if err != nil {
 		c.Note(fmt.Sprintf("e2e %s: tunnel could not be opened: %v", kind, err))
 		c.Dist("e2e-" + kind + "-unavailable")
-		return
+		return false
 	}
 	defer nc.Close()
 
@@ -210,7 +229,7 @@ func (g *gen) e2eRun(name, kind string, addr string, h *e2eHandler, n int) {
 	}
 	var got []string
 	for i := 0; i < n; i++ {
-		nc.SetReadDeadline(time.Now().Add(10 * time.Second))
+		nc.SetReadDeadline(time.Now().Add(5 * time.Second))
 		what, err := cn.Read()
 		if err != nil {
 			got = append(got, "error: "+classify(err))
@@ -226,7 +245,19 @@ func (g *gen) e2eRun(name, kind string, addr string, h *e2eHandler, n int) {
 	seen := append([]string{}, h.requests[sc]...)
 	sent := append([]string{}, h.responses[sc]...)
 	closeErrs := fmt.Sprint(h.closeErrs)
+	setupRace := false
+	for _, e := range h.closeErrs[nCloseErrs:] {
+		if strings.Contains(e, "did not found a corresponding HTTP") {
+			setupRace = true
+		}
+	}
+	if setupRace && sc != nil && len(written) > 0 && (len(seen) == 0 || seen[0] != written[0]) {
+		seen, sent = nil, nil
+	}
 	h.mu.Unlock()
+	if setupRace && len(seen) == 0 && !last {
+		return true
+	}
 
 	in := map[string]any{"kind": "e2e-" + kind, "stream": hexs(stream.Bytes())}
 	firstDiff := func(a, b []string) string {
@@ -265,11 +296,35 @@ func (g *gen) e2eRun(name, kind string, addr string, h *e2eHandler, n int) {
 	c.Add(cs)
 	c.Dist("e2e-" + kind)
 	c.DistN("e2e-"+kind+"-requests", n)
+	return false
 }
 
 // e2eClient: the library's own Client with a tunnel against the library's Server.
 func (g *gen) e2eClient(kind string, addr string, h *e2eHandler) {
+	for try := 0; try < 4; try++ {
+		if !g.e2eClientOnce(kind, addr, h, try == 3) {
+			return
+		}
+		g.c.Dist("e2e-" + kind + "-setup-race-retry")
+	}
+}
+
+func (g *gen) e2eClientOnce(kind string, addr string, h *e2eHandler, last bool) bool {
 	c := g.c
+	h.mu.Lock()
+	nCloseErrs := len(h.closeErrs)
+	h.mu.Unlock()
+	raced := func() bool {
+		time.Sleep(50 * time.Millisecond)
+		h.mu.Lock()
+		defer h.mu.Unlock()
+		for _, e := range h.closeErrs[nCloseErrs:] {
+			if strings.Contains(e, "did not found a corresponding HTTP") {
+				return true
+			}
+		}
+		return false
+	}
 	var creq, cres []string
 	var mu sync.Mutex
 	cl := &gortsplib.Client{
@@ -284,7 +339,7 @@ func (g *gen) e2eClient(kind string, addr string, h *e2eHandler) {
 	}
 	if err := cl.Start(); err != nil {
 		c.Note("e2e client " + kind + ": " + err.Error())
-		return
+		return false
 	}
 	defer cl.Close()
 	u, _ := base.ParseURL("rtsp://" + addr + "/stream?x=1")
@@ -292,9 +347,12 @@ func (g *gen) e2eClient(kind string, addr string, h *e2eHandler) {
 	for i := 0; i < 5; i++ {
 		res, err := cl.Options(u)
 		if err != nil {
+			if i == 0 && !last && raced() {
+				return true
+			}
 			viol(c, map[string]any{"kind": "e2e-client-" + kind}, "a library client talks to a library server through the "+kind+" tunnel",
 				"e2e-client-"+kind, fmt.Sprintf("OPTIONS %d failed: %v", i, err))
-			return
+			return false
 		}
 		if res.StatusCode == base.StatusOK {
 			ok++
@@ -312,6 +370,7 @@ func (g *gen) e2eClient(kind string, addr string, h *e2eHandler) {
 	}
 	c.Dist("e2e-client-" + kind)
 	c.CountOnly("e2e-client-"+kind, true)
+	return false
 }
 
 func runE2E(c *corr.Ctx, g *gen) {
